@@ -16,7 +16,7 @@ from typing import List
 from nostr_relay import validators as V
 from nostr_relay import dynamic_lists as DL
 from nostr_relay.errors import StorageError
-from vk.ob import obligation, pick, PARAM, opaque_int_format
+from vk.ob import obligation, pick, PARAM, opaque_int_format, fresh_module_state
 
 PKS = ("aa" * 32, "bb" * 32, "cc" * 32, "dd" * 32)
 
@@ -400,3 +400,45 @@ def ob_homeserver_inbox(sel: int, w0: bool, w1: bool, tsel: List[int], kind: int
     if got != want:
         return "is_whitelisted_or_tagged raised=%r; author_ok=%r tagged=%r kind=%d" % (got, author_ok, tagged, kind)
     return "ok" if want else "ok-admitted"
+
+
+@obligation(funcs=["validators.get_validator"], timeout=(90, 300),
+            bounds="the same validator pipeline object validates the same event twice (the policy changed in between: symbolic), "
+                   "then a different event that re-uses the first one's id and sig: every call runs every validator (no verdict "
+                   "is carried over)")
+def ob_pipeline_repeat(flip: bool, forged_same_id: bool) -> str:
+    """
+    post: _.startswith("ok")
+    """
+    logging.disable(logging.CRITICAL)
+    fresh_module_state(V)
+    calls = []
+    state = {"deny": False}
+
+    def policy(event, config):
+        calls.append(event)
+        if state["deny"]:
+            raise StorageError("rejected: policy")
+
+    V.object_from_path = lambda name: policy
+    V.asyncio = _FakeAsyncio
+    validate = V.get_validator(["p"])
+    ev = Ev(pubkey=PKS[0])
+    ev.id, ev.sig = "11" * 32, "22" * 64
+    cfg = _cfg()
+    _drive(validate(ev, cfg))
+    state["deny"] = flip
+    second = ev
+    if forged_same_id:
+        second = Ev(pubkey=PKS[1], kind=10002)
+        second.id, second.sig = ev.id, ev.sig
+    raised = False
+    try:
+        _drive(validate(second, cfg))
+    except StorageError:
+        raised = True
+    if len(calls) != 2 or calls[1] is not second:
+        return "the second submission was not validated (validators ran %d times)" % len(calls)
+    if raised != flip:
+        return "second verdict %r although the policy now says %r" % (raised, flip)
+    return "ok"
